@@ -31,8 +31,8 @@ func nodeRunCalls(p *core.Program, fn *core.FuncRef) []runCall {
 			return true
 		}
 		rc := runCall{Call: call}
-		rc.Produce, _ = core.Unparen(call.Args[1]).(*ast.FuncLit)
-		rc.MetaSend, _ = core.Unparen(call.Args[2]).(*ast.FuncLit)
+		rc.Produce = funcValueLit(p, fn, call.Args[1])
+		rc.MetaSend = funcValueLit(p, fn, call.Args[2])
 		out = append(out, rc)
 		return true
 	})
